@@ -119,6 +119,7 @@ type Exec struct {
 	S *Script
 
 	heapSort map[string]string
+	mapKeySort map[string]string // map value heaps: SMT sort of the key
 	heapGoTy map[string]types.Type // field heaps: Go type of the field (for quantified type invariants)
 	epochTop map[int]string
 	epochs   map[int]*epochDef
@@ -163,7 +164,7 @@ type specFnInfo struct {
 }
 
 func newExec(p *Program, w *World) *Exec {
-	e := &Exec{P: p, W: w, S: newScript(), heapSort: map[string]string{}, heapGoTy: map[string]types.Type{}, epochs: map[int]*epochDef{}, epochTop: map[int]string{}, epochMem: map[string]string{},
+	e := &Exec{P: p, W: w, S: newScript(), heapSort: map[string]string{}, heapGoTy: map[string]types.Type{}, mapKeySort: map[string]string{}, epochs: map[int]*epochDef{}, epochTop: map[int]string{}, epochMem: map[string]string{},
 		oblCount: map[string]int{}, Assumptions: map[string]bool{}, specFnDone: map[string]*specFnInfo{}, axiomsDone: map[string]bool{},
 		simplePure: map[*ssa.Function]int{}, inlinable: map[*ssa.Function]bool{}, boxDecl: map[string]bool{}, allAllocs: map[string]bool{}, exceptTerms: map[string]string{}, mapKeyCands: map[string][]string{}}
 	e.heapSort[topVar] = "Int"
@@ -313,6 +314,17 @@ func (e *Exec) heapInv(name, term, top string) {
 			inv = sliceInv(sel)
 		}
 		e.S.assume(fmt.Sprintf("(forall ((o Int)) (! (=> (<= o %s) %s) :pattern (%s)))", top, inv, sel))
+	case strings.HasPrefix(name, "MV.") && (strings.HasSuffix(name, ".Ref") || strings.HasSuffix(name, ".Slice")):
+		ks := e.mapKeySort[name]
+		if ks == "" {
+			return
+		}
+		sel := app("select", app("select", term, "o"), "k")
+		inv := refInv(sel)
+		if strings.HasSuffix(name, ".Slice") {
+			inv = sliceInv(sel)
+		}
+		e.S.assume(fmt.Sprintf("(forall ((o Int) (k %s)) (! (=> (<= o %s) %s) :pattern (%s)))", ks, top, inv, sel))
 	case name == "E.Ref" || name == "E.Slice":
 		sel := app("select", app("select", term, "o"), "i")
 		inv := refInv(sel)
@@ -390,6 +402,26 @@ func (e *Exec) frameEpochAbove(st *State, mark string) {
 	st.Vars = nv
 	e.epochs[ep] = &epochDef{frame: true, prev: prev, oldTop: mark, newTop: curTop}
 	e.epochTop[ep] = curTop
+}
+
+// reassertHeapInvs restates the type invariant of every registered heap for the state's current
+// watermark (sound: all objects that exist hold references to objects that exist).
+func (e *Exec) reassertHeapInvs(st *State) {
+	if e.inSpec > 0 {
+		return
+	}
+	top := e.get(st, topVar)
+	for _, name := range sortedKeys(e.heapSort) {
+		if !isObjectHeap(name) {
+			continue
+		}
+		if _, seen := st.Vars[name]; !seen {
+			if _, known := e.epochMem[fmt.Sprintf("%s@e%d", name, st.Epoch)]; !known && !(st.Epoch == 0 && e.S.declared[name]) {
+				continue // never referenced so far: nothing to restate
+			}
+		}
+		e.heapInv(name, e.get(st, name), top)
+	}
 }
 
 func (e *Exec) bumpTop(st *State) {
